@@ -15,11 +15,14 @@ Theorem c14_cpc_check_sound : forall s, inv_check s = true ->
 Proof. exact inv_check_sound. Qed.
 
 (* wf_ops_safe: such a state validates, is a valid union input (so C06 applies), and accepts every further
-   valid pair inside the domain without reaching a modelled panic site *)
+   valid pair inside the domain (offset <= 56, table capacity: fits, see Props/C05.v) without reaching a modelled
+   panic site *)
 Theorem c14_cpc_checked_state_usable : forall s, inv_check s = true ->
   cpc_validate s = Ok true /\
   (exists M, Vin s (c_lgk s) M) /\
-  (forall rc, valid (c_lgk s) rc -> 8 * (c_num s + 1) < 475 * 2 ^ c_lgk s -> exists s', row_col_update s rc = Ok s').
+  (forall rc M, Vin s (c_lgk s) M -> valid (c_lgk s) rc -> 8 * (c_num s + 1) < 475 * 2 ^ c_lgk s ->
+     fits (c_lgk s) (spec_update M rc) (pop_rows (spec_update M rc) (Knat (c_lgk s))) ->
+     exists s', row_col_update s rc = Ok s').
 Proof. exact checked_state_usable. Qed.
 
 (* non-vacuity: a pinned lg_k-4 state (C = 10: nine window bits in columns 0..1, one surprising one) passes the check;
